@@ -25,10 +25,32 @@ class PromiseCore : public std::conditional_t<Shared, SharedCore<V, E>, UniqueCo
   using Base = std::conditional_t<Shared, SharedCore<V, E>, UniqueCore<V, E>>;
 
   explicit PromiseCore(Func&& f) : F{std::forward<Func>(f)} {
+    this->_self = {};
   }
+
+  // Until Call we are the not yet started head of a lazy chain, e.g. Task returned from a callback or awaited by a coroutine:
+  // caller is our continuation, so start like detail::Start does. After Call we can only be connected to other future
+  [[nodiscard]] InlineCore* Here(InlineCore& caller) noexcept final {
+    if (this->_self.unwrapping == 0) {
+      this->_executor->Submit(*this);
+      return nullptr;
+    }
+    return Base::Here(caller);
+  }
+
+#if YACLIB_SYMMETRIC_TRANSFER != 0
+  [[nodiscard]] yaclib_std::coroutine_handle<> Next(InlineCore& caller) noexcept final {
+    if (this->_self.unwrapping == 0) {
+      this->_executor->Submit(*this);
+      return Noop<true>();
+    }
+    return Base::Next(caller);
+  }
+#endif
 
  private:
   void Call() noexcept final {
+    this->_self.unwrapping = 1;
     PromiseT promise{CorePtrT{NoRefTag{}, this}};
     try {
       // We need to move func with capture on stack, because promise can be Set before func return
